@@ -362,6 +362,10 @@ def r17_3(run):
                 names = [y[1].split(".")[-1] for y in x[3][0][1][1] if y[0] in ("f", "n", "x")]
                 if len(names) == len(x[3][0][1][1]):
                     lst = names
+            # (the same comprehension over a display arrives expanded: {Cls.table_name(): Cls, ...})
+            if x[0] == "dict" and x[1] and all(v_[0] in ("f", "n", "x") and k_[0] == "call" and k_[1][0] == "attr" and k_[1][1] == v_
+                                               and k_[1][2] == "table_name" for k_, v_ in x[1]):
+                lst = [v_[1].split(".")[-1] for _, v_ in x[1]]
             # the special columns: (el, jn) for el, jn in [("press_control", "controlled_junction"), ...]
             if x[0] == "comp" and x[1] == "GeneratorExp" and len(x[3]) == 1 and x[3][0][1][0] in ("list", "tuple") \
                     and all(y[0] == "tuple" and len(y[1]) == 2 and all(z[0] == "c" for z in y[1]) for y in x[3][0][1][1]):
